@@ -220,6 +220,47 @@ pub fn salts(ctx: &Ctx, rep: &mut Report) {
     }
     check_history("everything together", &all, rep);
     rep.require("long_lived_thread_signatures", long_n as u64);
+    // how much of the generator's output the salt carries: two generator streams (RNG hook) that
+    // agree ONLY on a window of at most 32 output positions and are independent everywhere else
+    // cannot lead to the same 40-byte salt, wherever in the stream the salt is drawn from; a salt
+    // derived from a few of the drawn bytes (a truncating "whitening" step, a short seed) repeats
+    {
+        let (kw, _) = pool::keys::<F512>(ctx.seed, "c08-window", 1);
+        let (kw2, _) = pool::keys::<F1024>(ctx.seed, "c08-window", 1);
+        if let (Some(k5), Some(k10)) = (kw.first(), kw2.first()) {
+            let windows: [(u64, u64); 14] = [(0, 1), (0, 2), (0, 4), (0, 5), (0, 8), (0, 16), (0, 24), (0, 32), (8, 40), (20, 40), (32, 40), (36, 68), (40, 72), (3, 35)];
+            for (wi, &(lo, hi)) in windows.iter().enumerate() {
+                for r_ in 0..ctx.sz(2, 12) {
+                    let shared_seed = ctx.seed.wrapping_mul(1000) + (wi * 100 + r_) as u64;
+                    let strat = crate::gen::Strategy::SharedWindow { lo, hi, shared_seed };
+                    let msg = b"window".to_vec();
+                    let mut salts: Vec<Vec<u8>> = vec![];
+                    for side in 0..2 {
+                        let label = format!("c08-window-{}-{}-{}", wi, r_, side);
+                        let rng = crate::gen::ScriptedRng::new(ctx.seed, &label, strat.clone(), crate::signer::progress_budget(1024));
+                        let out = if r_ % 2 == 0 { crate::signer::sign_scripted::<F512>(&msg, &k5.sk, rng, false, 0).sig.map(|s| F512::sig_to_bytes(&s)) } else { crate::signer::sign_scripted::<F1024>(&msg, &k10.sk, rng, false, 0).sig.map(|s| F1024::sig_to_bytes(&s)) };
+                        if let Ok(b) = out {
+                            salts.push(b[1..41].to_vec());
+                        }
+                    }
+                    rep.evaluations += 1;
+                    if salts.len() == 2 {
+                        rep.count("generator_window_pairs", 1);
+                        if salts[0] == salts[1] {
+                            rep.violation(
+                                "salt:does-not-carry-40-generator-bytes",
+                                format!("two signatures made with generator streams that agree only on output positions [{}, {}) and are independent everywhere else carry the same salt {}", lo, hi, hex(&salts[0])),
+                                json!({"kind": "window", "lo": lo, "hi": hi, "shared_seed": shared_seed, "variant": if r_ % 2 == 0 { "falcon512" } else { "falcon1024" }}),
+                            );
+                        }
+                        rep.nontrivial(format!("window|{}|{}|{}", lo, hi, r_).as_bytes());
+                    }
+                }
+            }
+        }
+        vh::set_sign_rng(None);
+    }
+    rep.require("generator_window_pairs", 20);
     // the retry paths of sign (compression failure forced by the failpoint, real randomness):
     // a salt that is re-drawn, cleared or reused when signing restarts shows up here
     let (keys3, _) = pool::keys::<F512>(ctx.seed, "c08", 2);
